@@ -212,6 +212,8 @@ m("write-in-two-steps", "_rewrite_code.py", '            code.write(new_code.enc
 
 
 # ---- reverts of further fix commits
+m("import-before-docstring-revert", "_find_external.py", "            index == 0\n            and isinstance(node, ast.Expr)", "            False\n            and isinstance(node, ast.Expr)", ["C03"], "revert: import inserted above the module docstring")
+m("import-inside-continued-import", "_find_external.py", "            if last_token.end[0] == next_token.end[0]:", "            if False:", ["C03"], "import inserted right after the last import token, before trailing tokens on the same line")
 m("kwarg-insert-pos-revert", "_adapter/generic_call_adapter.py", "        to_insert = []\n        for key, new_value_element in new_kwargs.items():", "        to_insert = []\n        insert_pos = 0\n        for key, new_value_element in new_kwargs.items():", ["C09"], "revert: new keyword arguments positioned by count of matched arguments", more=[("_adapter/generic_call_adapter.py", "                            arg_pos=old_kwargs_pos[key],", "                            arg_pos=insert_pos,"), ("_adapter/generic_call_adapter.py", "                    to_insert = []\n\n        if to_insert:", "                    to_insert = []\n\n                insert_pos += 1\n\n        if to_insert:"), ("_adapter/generic_call_adapter.py", "                    arg_pos=None,\n                    arg_name=key,", "                    arg_pos=insert_pos,\n                    arg_name=key,")])
 m("flag-empty-revert", "_code_repr.py", "    if not members:", "    if False:", ["C01"], "revert: Flag without members")
 m("lone-string-docstring-revert", "_source_file.py", "        if len(tokens) == 1 and tokens[0].type == token.STRING:", "        if False:", ["C01", "C12"], "revert: lone string formatted as docstring")
